@@ -6,6 +6,7 @@ import (
 	"encoding/json"
 	"errors"
 	"fmt"
+	"io"
 	"runtime"
 	"strconv"
 	"sync"
@@ -45,6 +46,9 @@ type c11Resp struct {
 	// consumer
 	Style  string `json:"style"`   // "nextpackage" | "until"
 	FailAt int    `json:"fail_at"` // callback invocation index that fails (-1 never)
+	// FailWrapsEOF: the failing callback returns an error that wraps io.EOF
+	// (still "another error": only the unwrapped io.EOF means "resume later")
+	FailWrapsEOF bool `json:"fail_wraps_eof,omitempty"`
 	Yield  int    `json:"yield"`   // Gosched calls between packets while feeding
 }
 
@@ -58,6 +62,7 @@ type c11Event struct {
 }
 
 var errC11Callback = errors.New("c11 callback failure")
+var errC11WrapsEOF = fmt.Errorf("c11 callback failure while scanning: %w", io.EOF)
 
 func c11Run(c *Ctx, cs c11Case) {
 	r := c.R
@@ -173,6 +178,9 @@ func c11Run(c *Ctx, cs c11Case) {
 				emit("recv:" + kd)
 				if idx == rp.FailAt {
 					failed = true
+					if rp.FailWrapsEOF {
+						return false, errC11WrapsEOF
+					}
 					return false, errC11Callback
 				}
 				return kd == "done0", nil
@@ -343,7 +351,11 @@ func c11Run(c *Ctx, cs c11Case) {
 		// (5) callback failure
 		if rp.Style == "until" {
 			if failed {
-				if retErr == nil || !errors.Is(retErr, errC11Callback) {
+				cb := errC11Callback
+				if rp.FailWrapsEOF {
+					cb = errC11WrapsEOF
+				}
+				if retErr == nil || !errors.Is(retErr, cb) || retErr == io.EOF {
 					fail("callback-error/not-matching", fmt.Sprintf("NextPackageUntil returned %v, want an error matching the callback's", retErr))
 					return
 				}
@@ -472,6 +484,13 @@ func c11GenResp(rnd *rt.Rand, nextMsg *uint32, first bool) c11Resp {
 				*nextMsg++
 				t := byte(rnd.Range(1, 4))
 				nv, ov := fmt.Sprintf("new%d", *nextMsg), fmt.Sprintf("old%d", *nextMsg)
+				// empty old / new values are common (e.g. no previous language)
+				switch rnd.Intn(5) {
+				case 0:
+					ov = ""
+				case 1:
+					nv = ""
+				}
 				if t == 4 {
 					nv = strconv.Itoa(rnd.Range(256, 65535))
 					ov = strconv.Itoa(rnd.Range(256, 65535))
@@ -551,6 +570,7 @@ func c11GenResp(rnd *rt.Rand, nextMsg *uint32, first bool) c11Resp {
 		if rnd.Bool() {
 			rp.FailAt = -1
 		}
+		rp.FailWrapsEOF = rnd.Chance(1, 3)
 	}
 	rp.Yield = rnd.Intn(4)
 	return rp
